@@ -9,6 +9,7 @@ import (
 	"bytes"
 	"context"
 	"fmt"
+	"math"
 	"math/rand"
 	"sort"
 	"strconv"
@@ -65,6 +66,7 @@ type world struct {
 	reuseOpts     bool
 	aliasOrder    []string
 	lenPtrs       map[int]*int
+	clock0        int // initial clock time of the replicas of this history
 	jsonFO        *entry.FetchOptions
 	logConc       uint // LogOptions.Concurrency of the replicas of this history (0 = default)
 	// codec configuration of the history: nil = default, otherwise link-encrypting with one shared key
@@ -216,6 +218,11 @@ func (w *world) observe(i int) {
 func (w *world) newReplica(id, writer, sk string, deny []string) int {
 	ident := w.ids.Identity(writer)
 	opts := &ipfslog.LogOptions{ID: id, SortFn: sortFnOf(sk), IO: w.io, Concurrency: w.logConc}
+	if w.clock0 != 0 {
+		// the replica's clock starts far from zero (a clock seeded from wall-clock nanoseconds, or just
+		// beyond 2^53 where float64 arithmetic stops being exact)
+		opts.Clock = entry.NewLamportClock(ident.PublicKey, w.clock0)
+	}
 	if len(deny) == 0 && w.reuseOpts {
 		// replicas created from one reused options value (NewLog writes its defaults back into it)
 		if w.optsCache == nil {
@@ -243,7 +250,7 @@ func (w *world) newReplica(id, writer, sk string, deny []string) int {
 	}
 	w.reps = append(w.reps, &replica{log: l, writer: writer, sort: sk, id: id})
 	i := len(w.reps) - 1
-	fmt.Fprintf(w.out, "N %d %s %s %s %s\n", i, id, hexs(ident.PublicKey), sk, lst(dl))
+	fmt.Fprintf(w.out, "N %d %s %s %s %s %d\n", i, id, hexs(ident.PublicKey), sk, lst(dl), w.clock0)
 	return i
 }
 
@@ -745,7 +752,15 @@ func runCore(seed int64, nHist, nOps int, out *bufio.Writer, thorough bool) *cor
 		if acl {
 			stats.AclHists++
 		}
+		// one history in twenty-five is LONG: a few hundred operations, mostly appends, so that logs of
+		// hundreds of entries, deep reference chains and sorts far beyond 20 elements occur
+		long := !shared && !acl && h%25 == 7
+		if long {
+			ops = maxI(nOps, 220)
+			stats.OpHist["longHistory"]++
+		}
 		w.reuseOpts = r.Intn(3) == 0
+		w.clock0 = []int{0, 0, 0, 0, 0, 0, 1<<53 - 2, 1<<53 + 7, 1758931200000000000, 1<<62 + 12345}[r.Intn(10)]
 		w.logConc = []uint{0, 0, 1, 2, 3, 16, 64}[r.Intn(7)]
 		w.ioDec = mustIO()
 		keyed := r.Intn(4) == 0
@@ -822,6 +837,9 @@ func runCore(seed int64, nHist, nOps int, out *bufio.Writer, thorough bool) *cor
 				i = r.Intn(n)
 			}
 			c := r.Intn(100)
+			if long && c >= 45 && c < 94 && r.Intn(3) != 0 {
+				c = r.Intn(45) // mostly appends
+			}
 			switch {
 			case c < 45:
 				w.doAppend(i, pcChoices[r.Intn(len(pcChoices))])
@@ -833,7 +851,12 @@ func runCore(seed int64, nHist, nOps int, out *bufio.Writer, thorough bool) *cor
 			case c < 80 && bounded:
 				j := r.Intn(n)
 				tot := w.reps[i].log.Len() + w.reps[j].log.Len()
-				w.doJoin(i, j, r.Intn(tot+4))
+				bound := r.Intn(tot + 4)
+				if r.Intn(12) == 0 {
+					// bounds far beyond any log size behave like the unbounded merge
+					bound = []int{1 << 20, 1 << 44, 1<<53 + 1, math.MaxInt64}[r.Intn(4)]
+				}
+				w.doJoin(i, j, bound)
 				stats.OpHist["joinN"]++
 				// a burst of further bounded joins into the same (now trimmed) replica, from arbitrary —
 				// often stale — replicas, with bounds around its current size
@@ -970,6 +993,13 @@ func runCore(seed int64, nHist, nOps int, out *bufio.Writer, thorough bool) *cor
 		out.Flush()
 	}
 	return stats
+}
+
+func maxI(a, b int) int {
+	if a > b {
+		return a
+	}
+	return b
 }
 
 func minI(a, b int) int {
